@@ -3,8 +3,13 @@ C15 - Every HTTP response is a well-formed, self-delimiting message with exact b
 
 The real `HTTP` component is driven in-process (http15util.Rig): complete requests are fired as
 `read(sock, bytes)` events, an application component answers them from a table with every body
-shape (str, bytes, list, unsized iterable, streamed generator, file object, httperror), and the
+shape (str, bytes, list, unsized iterable, streamed generator, file object, httperror; and str / bytes /
+list with `response.stream = True` set by the handler - kinds sstr, sbytes, slist, slistb), and the
 `write` / `close` events per connection are recorded.
+
+A sized body (str / bytes / list) with the stream flag is, for the Lean model, the same `Body.sized` as
+without the flag (model_body maps sstr/sbytes/slist/slistb to the model's existing kinds): the body is
+complete, there is nothing to stream, it is delimited by Content-Length and written in one piece.
 
  B  correspondence : per request, the recorded events (every write, every close, in order),
                      whether the `_clients` entry is gone and whether the connection was closed
@@ -80,9 +85,15 @@ def produced_bytes(body):
     return b''.join(enc(v) for v in body_parts(body) if v is not None)
 
 
+# response.stream = True set by the handler although the body is complete: 'sstr' / 'sbytes' / 'slist' return the
+# value, 'slistb' assigns the list to response.body and returns the response.  For the model (and for the
+# property) these are the same sized Body as without the flag: Content-Length, written in one piece.
+SIZED_STREAM_FLAG = {'sstr': 'str', 'sbytes': 'bytes', 'slist': 'list', 'slistb': 'list'}
+
+
 def model_body(body, bufsize):
     """(kind, parts) as Response.body / Response.stream are when prepare() runs"""
-    kind = body['kind']
+    kind = SIZED_STREAM_FLAG.get(body['kind'], body['kind'])   # the stream flag does not change a sized Body
     vals = [enc(v) for v in body_parts(body) if v is not None]
     if kind in ('str', 'bytes'):
         whole = b''.join(vals)
@@ -309,7 +320,9 @@ def hdr_tok(n, v):
 
 
 KIND_CLASS = {'str': 'sized', 'bytes': 'sized', 'list': 'sized', 'httperror': 'sized',
-              'gen': 'iterable', 'sgen': 'stream', 'file': 'stream'}
+              'gen': 'iterable', 'sgen': 'stream', 'file': 'stream',
+              'sstr': 'sized+stream-flag', 'sbytes': 'sized+stream-flag', 'slist': 'sized+stream-flag',
+              'slistb': 'sized+stream-flag'}
 
 
 def features(case, idx):
@@ -546,6 +559,18 @@ def base_bodies():
         ('file', {'kind': 'file', 'parts': [Bt(b'file contents\n')]}),
         ('file-empty', {'kind': 'file', 'parts': []}),
         ('httperror', {'kind': 'httperror', 'parts': []}),
+        # stream flag + complete body
+        ('sstr', {'kind': 'sstr', 'parts': [S('héllo')]}),
+        ('sstr-empty', {'kind': 'sstr', 'parts': []}),
+        ('sbytes', {'kind': 'sbytes', 'parts': [Bt(b'\x00\xffbin\r\n0\r\n\r\n')]}),
+        ('sbytes-empty', {'kind': 'sbytes', 'parts': []}),
+        ('slist', {'kind': 'slist', 'parts': [S('a'), Bt(b'bc'), S(''), ['n'], S('€')]}),
+        ('slist-empty', {'kind': 'slist', 'parts': []}),
+        ('slist-blank', {'kind': 'slist', 'parts': [S(''), Bt(b'')]}),
+        ('slistb', {'kind': 'slistb', 'parts': [S('a'), Bt(b'bc'), S(''), S('d')]}),
+        ('slistb-first-empty', {'kind': 'slistb', 'parts': [S(''), S('a'), Bt(b'b')]}),
+        ('slistb-empty', {'kind': 'slistb', 'parts': []}),
+        ('slistb-blank', {'kind': 'slistb', 'parts': [S(''), S('')]}),
     ]
 
 
@@ -567,8 +592,8 @@ def product_cases():
 
 def sized_body(rng, kind, size):
     """a body of `size` bytes of the given kind, cut into parts where the kind has parts"""
-    if kind in ('str', 'bytes', 'file'):
-        if kind == 'str':
+    if kind in ('str', 'bytes', 'file', 'sstr', 'sbytes'):
+        if kind in ('str', 'sstr'):
             return {'kind': kind, 'parts': [['rs', 'x', size]]}
         return {'kind': kind, 'parts': [['rb', '7a', size]]}
     parts = []
@@ -593,7 +618,7 @@ def size_cases(ctx):
         sizes += [70 * 1024]
     cases = []
     for size in sizes:
-        for kind in ['str', 'bytes', 'list', 'gen', 'sgen', 'file']:
+        for kind in ['str', 'bytes', 'list', 'gen', 'sgen', 'file', 'sstr', 'sbytes', 'slist', 'slistb']:
             for ver in ['1.1', '1.0']:
                 if size >= 65535 and ctx.tier == 'quick' and not (kind in ('sgen', 'file', 'gen') and ver == '1.1'):
                     continue
@@ -605,7 +630,8 @@ def size_cases(ctx):
 
 
 def random_request(rng, keepish=True):
-    kind = rng.choice(['str', 'bytes', 'list', 'gen', 'sgen', 'file', 'gen', 'sgen', 'httperror'])
+    kind = rng.choice(['str', 'bytes', 'list', 'gen', 'sgen', 'file', 'gen', 'sgen', 'httperror',
+                       'sstr', 'sbytes', 'slist', 'slistb'])
     ver = rng.choice(['1.1', '1.1', '1.0'])
     if keepish:
         conn = 'keep-alive' if ver == '1.0' and rng.random() < 0.85 else rng.choice([None, None, 'keep-alive', 'close'])
@@ -622,15 +648,15 @@ def random_request(rng, keepish=True):
             r = rng.random()
             if r < 0.25:
                 parts.append(rng.choice([S(''), Bt(b'')]))
-            elif r < 0.3 and kind == 'list':
+            elif r < 0.3 and kind in ('list', 'slist', 'slistb'):
                 parts.append(['n'])
             elif r < 0.65:
                 parts.append(S(''.join(rng.choice('ab€\r\n0 ') for _ in range(rng.randint(1, 20)))))
             else:
                 parts.append(Bt(bytes(rng.randrange(256) for _ in range(rng.randint(1, 20)))))
-        if kind in ('str',):
+        if kind in ('str', 'sstr'):
             parts = [p if p[0] == 's' else S('z') for p in parts]
-        if kind in ('bytes', 'file'):
+        if kind in ('bytes', 'file', 'sbytes'):
             parts = [p if p[0] == 'b' else Bt(b'zz') for p in parts]
         body = {'kind': kind, 'parts': parts}
     rq = {'method': rng.choice(['GET', 'GET', 'HEAD']), 'ver': ver, 'conn': conn, 'status': status, 'body': body}
@@ -663,9 +689,10 @@ def keepalive_sequence_cases():
         tails = [[plain('GET', 'str', [S('second')]), plain('HEAD', 'gen', [S('a'), Bt(b'bc')])],
                  [plain('HEAD', 'str', [S('second')]), self_answered_request('dot', 'GET', ver, conn)],
                  [self_answered_request('unknown', 'GET', ver, conn), plain('GET', 'sgen', [S('a'), S(''), Bt(b'b')])]]
-        leads = [[], [plain('GET', 'list', [S('a'), Bt(b'bc')], 404)], [plain('HEAD', 'bytes', [Bt(b'first')])]]
+        leads = [[], [plain('GET', 'list', [S('a'), Bt(b'bc')], 404)], [plain('HEAD', 'bytes', [Bt(b'first')])],
+                 [plain('GET', 'slist', [S('a'), Bt(b'bc')])]]
         for k, lead in enumerate(leads):
-            cases.append({'kind': 'conn', 'reqs': lead + [sa] + tails[k]})
+            cases.append({'kind': 'conn', 'reqs': lead + [sa] + tails[k % len(tails)]})
     return cases
 
 
@@ -693,7 +720,7 @@ def sequence_cases(ctx):
 KIB, MIB = 1 << 10, 1 << 20
 E2E_SNDBUF = 65536
 E2E_TIMEOUT = 20
-E2E_KINDS = ['bytes', 'str', 'list', 'gen', 'sgen', 'file']
+E2E_KINDS = ['bytes', 'str', 'list', 'gen', 'sgen', 'file', 'sstr', 'sbytes', 'slist', 'slistb']
 E2E_SIZES = [0, 1, 70 * KIB, 2 * MIB]
 E2E_BIG = 8 * MIB
 E2E_MAX_FAILURES = 8          # a broken transport fails everywhere, possibly by timeout: do not go on for long
@@ -741,7 +768,7 @@ def e2e_keepalive_sequence_cases():
             sa = e2e_self_answered(via, status, method, ver, conn)
             other = E2E_SELF_ANSWERED[(si + 3 + fi) % len(E2E_SELF_ANSWERED)]
             tail = [plain(), plain('HEAD', 'str', 70 * KIB), e2e_self_answered(*other, ver, conn),
-                    plain('GET', 'list' if ver == '1.0' else 'sgen', 4097)]
+                    plain('GET', 'list' if ver == '1.0' else 'sgen' if si % 2 else 'slist', 4097)]
             cases.append({'kind': 'e2e', 'sndbuf': E2E_SNDBUF, 'reqs': [sa] + tail})
             lead = [plain('GET', 'str', 70 * KIB), plain('HEAD')] if (si + fi) % 2 else [plain('GET', 'list', 1, 404)]
             cases.append({'kind': 'e2e', 'sndbuf': E2E_SNDBUF, 'reqs': lead + [sa] + tail[:2]})
@@ -1125,21 +1152,23 @@ def run(ctx):
               tuple(impl.server_protocol) == (1, 1), repr(impl.server_protocol))
     ctx.param('BUFSIZE > 0  (file bodies are cut into BUFSIZE pieces by the harness as file_generator does)',
               isinstance(impl.bufsize, int) and impl.bufsize > 0, repr(impl.bufsize))
-    ctx.rule = ('full product {GET,HEAD} x {1.1,1.0} x Connection{absent,keep-alive,close} x 16 body shapes '
-                '(str/bytes/list/unsized iterable/streamed generator/file/httperror; empty, blank parts, first part '
+    ctx.rule = ('full product {GET,HEAD} x {1.1,1.0} x Connection{absent,keep-alive,close} x 27 body shapes '
+                '(str/bytes/list/unsized iterable/streamed generator/file/httperror, and str/bytes/list with '
+                'response.stream = True set by the handler - returned, or the list assigned to response.body - which the '
+                'model treats as the same sized Body as without the flag; empty, blank parts, first part '
                 'empty) x 10 statuses, each followed by a second request on the same connection (exhaustive over '
                 'that table); directed keep-alive sequences: 5 version/Connection flavours x 8 self-answered '
                 'request kinds (un-normalised path /x/../c and /./c -> 301 of the path guard, GET and HEAD; unknown '
-                'path -> 404, GET and HEAD; handler returns httperror 404/403/500) x 3 positions (first, after a '
-                'GET, after a HEAD), each followed by two further requests of other kinds; body sizes around '
+                'path -> 404, GET and HEAD; handler returns httperror 404/403/500) x 4 positions (first, after a '
+                'GET, after a HEAD, after a stream-flagged list), each followed by two further requests of other kinds; body sizes around '
                 '16/256/BUFSIZE/2*BUFSIZE and 70 KiB per kind and version; random sequences of 2-4 requests per '
                 'connection (12% of the requests self-answered); oracle clause on every connection: response k >= 1 '
                 'on a kept-alive connection is the answer to request k (status, X-Case tag, Location); '
                 'non-trivial = every case (each is a full exchange); '
                 'distinct = distinct case; END-TO-END group (spec on impl only, no model comparison): a real '
                 'circuits.web.Server + Controller on 127.0.0.1:0 in a thread, SO_SNDBUF 64 KiB, driven by '
-                'http.client.HTTPConnection over loopback: 6 body kinds (bytes, str, list, generator, streamed '
-                'generator, file object) x sizes {0, 1, 70 KiB, 2 MiB (+ 8 MiB thorough)}, each once first on an '
+                'http.client.HTTPConnection over loopback: 10 body kinds (bytes, str, list, generator, streamed '
+                'generator, file object, and str / bytes / list / list-via-response.body with response.stream = True) x sizes {0, 1, 70 KiB, 2 MiB (+ 8 MiB thorough)}, each once first on an '
                 'HTTP/1.1 keep-alive connection of 2-3 requests and once as HTTP/1.0 / Connection: close / '
                 'HTTP/1.0 keep-alive request (GET and HEAD), plus 78 directed keep-alive sequences (13 '
                 'self-answered request kinds: un-normalised path, unknown path, handler returning httperror / '
@@ -1163,8 +1192,7 @@ def run(ctx):
                     'lines via its _http_vsn attributes), the loopback TCP stack of the kernel, a dup()ed socket '
                     'handle to observe the server side close']
     ctx.assumptions += ['the application does not set Content-Length / Transfer-Encoding / Connection itself',
-                        'response.stream = True only together with an iterator body (as Body.__set__ and '
-                        'wsgi.Gateway do); request cookies absent; generator handlers (coroutines) are C04/C06',
+                        'request cookies absent; generator handlers (coroutines) are C04/C06',
                         'the body iterator does not raise',
                         'e2e group: spec on impl only (not compared with the Lean model; the transport below the '
                         '`write` events is C11 territory, here only its HTTP-level consequence is observed); one '
